@@ -73,6 +73,12 @@ type vfWorld struct {
 	newIDs      []*url.URL
 	idKind      int
 	missingReq  bool
+	likesKind   int
+	likesPre    int
+	storedFollowN       int
+	storedFollowSeen    bool
+	storedFollowActor   string
+	storedFollowObjects []string
 	getNilOK    bool // C20 only: Get may return (nil, nil)
 	defaultStore bool // Get falls back to vfGetDefault
 	inboxSeen   func(id string) bool
@@ -307,7 +313,9 @@ func (d *vfDB) Get(c context.Context, id *url.URL) (vocab.Type, error) {
 		return nil, nil
 	}
 	if w.defaultStore {
-		return w.vfGetDefault(id), nil
+		if v := w.vfGetDefault(id); v != nil {
+			return v, nil
+		}
 	}
 	return nil, vfErrNotFound
 }
@@ -735,10 +743,10 @@ func (rw *vfWriter) Write(b []byte) (int, error) {
 
 func vfRequest(method, ctHeader, acceptHeader string, u *url.URL, body []byte) *http.Request {
 	r := &http.Request{Method: method, Header: http.Header{}, URL: u, Host: u.Host}
-	if ctHeader != "" {
+	if !vfIsEmptyConst(ctHeader) {
 		r.Header.Set("Content-Type", ctHeader)
 	}
-	if acceptHeader != "" {
+	if !vfIsEmptyConst(acceptHeader) {
 		r.Header.Set("Accept", acceptHeader)
 	}
 	r.Body = &vfBody{raw: body}
@@ -788,3 +796,6 @@ func vfIRIList(tag string, n int) []interface{} {
 	}
 	return l
 }
+
+// vfIsEmptyConst: the harness passed the literal "" (a symbolic string is never "absent").
+func vfIsEmptyConst(s string) bool { return !vfSymbolic(s) && s == "" }
